@@ -65,17 +65,19 @@ NumIntersections(p0, e0, p1, e1) ==
                         s1 == s0 + d0[1] * d1[1] + d0[2] * d1[2]
                         smin == MinI(s0, s1)
                         smax == MaxI(s0, s1)
-                    IN IF l0 = 0 THEN 0                     \* degenerate seg0: NaN comparisons are all false in the code
+                    IN IF l0 = 0 THEN 2                     \* degenerate seg0: s0 = 0/0 is NaN, every comparison is false and the code falls through to "2"
                        ELSE IF l0 < smin \/ 0 > smax THEN 0
                        ELSE IF l0 = smin \/ 0 = smax THEN 1
                        ELSE 2
 
-(* simplify.go segMakesNotSimple, including its early `return false` at the first shared endpoint *)
+(* simplify.go segMakesNotSimple: segments that share an end point are a problem only if they also overlap along
+   their length (two intersection points); any other pair must not meet at all *)
 RECURSIVE NotSimpleFrom(_, _, _, _)
 NotSimpleFrom(a, b, p, i) ==
     IF i > Len(p) - 1 THEN FALSE
-    ELSE IF a = p[i] \/ b = p[i + 1] \/ a = p[i + 1] \/ b = p[i] THEN FALSE
-    ELSE IF NumIntersections(a, b, p[i], p[i + 1]) > 0 THEN TRUE
-    ELSE NotSimpleFrom(a, b, p, i + 1)
+    ELSE LET n == NumIntersections(a, b, p[i], p[i + 1])
+             shared == a = p[i] \/ b = p[i + 1] \/ a = p[i + 1] \/ b = p[i]
+         IN IF (shared /\ n > 1) \/ (~shared /\ n > 0) THEN TRUE
+            ELSE NotSimpleFrom(a, b, p, i + 1)
 SegMakesNotSimple(a, b, p) == NotSimpleFrom(a, b, p, 1)
 =============================================================================
